@@ -25,7 +25,7 @@ RULE = ("pairs and triples of corpus scripts (all verbs and transfer kinds) on d
         "events of two sessions really alternate at least twice.")
 ASSUMPTIONS = ["MemoryPathIO back end shared by all sessions of the server (as in production: one state per server)",
                "pinned clock for file times"]
-REQUIRED_MONITORS = ["transcript_vs_solo", "tree_vs_solo", "backend_prefix"]
+REQUIRED_MONITORS = ["transcript_vs_solo", "tree_vs_solo", "backend_prefix", "clients_vs_solo"]
 ANCHOR_FUNCTIONS = ['server.py:Server.dispatcher', 'server.py:Server.rnfr', 'server.py:Server.cwd']
 EXHAUSTIVE = {"quick": False, "thorough": False}
 
@@ -98,10 +98,129 @@ async def run_world(net, plan, which, cut=None):
         w.cleanup()
 
 
+CLIENT_OPS = ["list_recursive", "list", "stat", "download", "upload", "mkd_rmd", "rename", "exists", "pwd_cd"]
+
+
+async def client_session(c, prefix, ops, gap):
+    """high-level operations of aioftp's own client on one prefix; returns a normalised record of what the caller saw"""
+    import pathlib
+    rec = []
+    for op in ops:
+        try:
+            if op == "list_recursive":
+                r = await c.list(prefix, recursive=True)
+                rec.append([op, sorted((str(p), i.get("type"), i.get("size") if i.get("type") == "file" else None) for p, i in r)])
+            elif op == "list":
+                r = await c.list(prefix + "/dir")
+                rec.append([op, sorted((str(p), i.get("type")) for p, i in r)])
+            elif op == "stat":
+                i = await c.stat(prefix + "/f.bin")
+                rec.append([op, i.get("type"), i.get("size")])
+            elif op == "download":
+                got = b""
+                async with c.download_stream(prefix + "/f.bin") as s:
+                    async for b in s.iter_by_block(1000):
+                        got += b
+                        await asyncio.sleep(gap)
+                rec.append([op, len(got), got[:16].hex(), got[-16:].hex()])
+            elif op == "upload":
+                async with c.upload_stream(prefix + "/cl-up.bin") as s:
+                    for k in range(6):
+                        await s.write(bytes([65 + k]) * 700)
+                        await asyncio.sleep(gap)
+                rec.append([op, "done"])
+            elif op == "mkd_rmd":
+                await c.make_directory(prefix + "/cl-new/deep")
+                await c.remove(prefix + "/cl-new")
+                rec.append([op, await c.exists(prefix + "/cl-new")])
+            elif op == "rename":
+                await c.rename(prefix + "/dir/g.txt", prefix + "/dir/g2.txt")
+                await c.rename(prefix + "/dir/g2.txt", prefix + "/dir/g.txt")
+                rec.append([op, "done"])
+            elif op == "exists":
+                rec.append([op, await c.exists(prefix + "/nope"), await c.is_file(prefix + "/f.bin"), await c.is_dir(prefix + "/dir")])
+            elif op == "pwd_cd":
+                await c.change_directory(prefix + "/dir")
+                a = str(await c.get_current_directory())
+                await c.change_directory("..")
+                rec.append([op, a, str(await c.get_current_directory())])
+        except Exception as e:      # an ordinary failure is part of the record
+            rec.append([op, "raised", type(e).__name__, str(e)[:80]])
+        await asyncio.sleep(gap)
+    return rec
+
+
+async def run_clients(net, plan, which):
+    prefixes = plan["prefixes"]
+    w = W.World(net, tree=corpus_tree(prefixes), users=corpus_users)
+    await w.start()
+    try:
+        rng = random.Random(plan["seed"])
+        if plan.get("backend_delay"):
+            w.ctl.delay = lambda op, path, n: rng.choice(plan["backend_delay"])
+
+        async def one(i):
+            await asyncio.sleep(plan["offsets"][i] if len(which) > 1 else 0)
+            c = aioftp.Client(path_io_factory=aioftp.MemoryPathIO)
+            await c.connect("127.0.0.1", 2121)
+            await c.login()
+            rec = await client_session(c, prefixes[i], plan["ops"][i], plan["gaps"][i])
+            await c.quit()
+            return rec
+        recs = await asyncio.wait_for(asyncio.gather(*[one(i) for i in which]), 600)
+        await net.quiesce(1.0)
+        tree = w.tree()
+        await w.stop()
+        return recs, tree
+    finally:
+        w.cleanup()
+
+
+def run_clients_plan(plan, out):
+    n = len(plan["prefixes"])
+    solos = []
+    for i in range(n):
+        async def main(net, hyg, i=i):
+            return await run_clients(net, plan, [i])
+        res, info = W.run(main, seed=plan["seed"], net_kwargs=dict(latency=0.001))
+        if res is None:
+            return W.failed(info, f"client solo {i}")
+        solos.append(res)
+
+    async def main2(net, hyg):
+        return await run_clients(net, plan, list(range(n)))
+    res, info = W.run(main2, seed=plan["seed"], net_kwargs=dict(latency=0.001))
+    if res is None:
+        return W.failed(info, f"clients interleaved {plan['ops']}")
+    recs, tree = res
+    where = f"aioftp clients, ops {plan['ops']} seed {plan['seed']}"
+    for i in range(n):
+        out["monitors"]["clients_vs_solo"] = out["monitors"].get("clients_vs_solo", 0) + 1
+        solo = solos[i][0][0]
+        if recs[i] != solo:
+            j = next((k for k, (x, y) in enumerate(zip(recs[i], solo)) if x != y), 0)
+            out["violations"].append({"key": f"client-result-differs-from-solo:{recs[i][j][0] if j < len(recs[i]) else '?'}",
+                                      "msg": f"{where}: client {i} on {plan['prefixes'][i]} saw {str(recs[i][j])[:300]} next to the others, "
+                                             f"{str(solo[j])[:300]} alone", "replay_case": {"plans": [plan]}})
+        p = plan["prefixes"][i]
+        sub = {k: v for k, v in tree.items() if k == p or k.startswith(p + "/")}
+        ssub = {k: v for k, v in solos[i][1].items() if k == p or k.startswith(p + "/")}
+        if sub != ssub:
+            out["violations"].append({"key": "tree-differs-from-solo:clients", "msg": f"{where}: sub-tree {p} differs from the solo run",
+                                      "replay_case": {"plans": [plan]}})
+    out["sigs"].append(sig_of(["clients", plan["ops"], plan["seed"]]))
+    return None
+
+
 def run_case(case):
     pin_clocks()
     out = {"violations": [], "monitors": {"transcript_vs_solo": 0, "tree_vs_solo": 0, "backend_prefix": 0}, "sigs": []}
     for plan in case["plans"]:
+        if plan.get("clients"):
+            bad = run_clients_plan(plan, out)
+            if bad is not None:
+                return bad
+            continue
         n = len(plan["scripts"])
         solos = []
         for i in range(n):
@@ -198,6 +317,14 @@ def gen_cases(tier, seed):
                           "users": ["anon", "alice", "anon"][:k], "offsets": [round(rng.random() * 0.004, 4) for _ in range(k)],
                           "lat": [rng.choice([0.0005, 0.001, 0.0015, 0.002]) for _ in range(4)], "mss": [1460, 64, 1460],
                           "backend_delay": rng.choice([None, [0, 0.0007]])})
+    # the same transfer kind in several sessions at once, every back-end call really suspending
+    for name in ("list", "mlsd", "retr_pasv", "stor_pasv", "appe", "two_transfers"):
+        for j in range(2 if tier == "quick" else 20):
+            k = 2 + j % 2
+            plans.append({"seed": seed * 3571 + j, "scripts": [name] * k, "prefixes": [f"/s{x}" for x in range(k)],
+                          "users": ["anon", "alice", "anon"][:k], "offsets": [round(rng.random() * 0.002, 4) for _ in range(k)],
+                          "lat": [rng.choice([0.0005, 0.001]) for _ in range(4)], "mss": [1460, 536, 1460],
+                          "backend_delay": [0.0007, 0.0011]})
     # different users, different base directories, identical virtual paths
     base_ok = [nm for nm in NAMES if nm not in ("login_pw", "relogin")]
     for j in range(30 if tier == "quick" else 800):
@@ -208,5 +335,14 @@ def gen_cases(tier, seed):
                       "prefixes": [""] * k, "users": ["u"] * k, "offsets": [round(rng.random() * 0.006, 4) for _ in range(k)],
                       "lat": [rng.choice([0.0005, 0.001, 0.002]) for _ in range(4)], "mss": [1460, 536, 64],
                       "backend_delay": rng.choice([None, [0, 0.0006]])})
+    # aioftp's own client in several sessions of one process (shared class or module state shows here)
+    for j in range(24 if tier == "quick" else 600):
+        k = 2 if j % 3 else 3
+        same = j % 2 == 0
+        first = [rng.choice(CLIENT_OPS) for _ in range(rng.randint(2, 5))]
+        plans.append({"clients": True, "seed": seed * 6007 + j, "prefixes": [f"/s{x}" for x in range(k)], "scripts": ["client"] * k,
+                      "ops": [first if same else [rng.choice(CLIENT_OPS) for _ in range(rng.randint(2, 5))] for _ in range(k)],
+                      "offsets": [round(rng.random() * 0.003, 4) for _ in range(k)], "gaps": [rng.choice([0, 0.0004, 0.001]) for _ in range(k)],
+                      "backend_delay": rng.choice([None, [0, 0.0006], [0.0005]])})
     per = 6
     return [{"plans": plans[i:i + per]} for i in range(0, len(plans), per)]
